@@ -268,24 +268,57 @@ pub fn map_foreach(
     let callback = args.first().cloned().unwrap_or(JsValue::Undefined);
     let this_arg = args.get(1).cloned().unwrap_or(JsValue::Undefined);
 
-    // Collect entries first to avoid borrow issues
-    let entries: Vec<(JsValue, JsValue)>;
-    {
-        let map = map_obj.borrow();
-        if let ExoticObject::Map { entries: ref e } = map.exotic {
-            entries = e.iter().map(|(k, v)| (k.0.clone(), v.clone())).collect();
-        } else {
-            return Err(JsError::type_error(
-                "Map.prototype.forEach called on non-Map",
-            ));
-        }
+    if !matches!(map_obj.borrow().exotic, ExoticObject::Map { .. }) {
+        return Err(JsError::type_error(
+            "Map.prototype.forEach called on non-Map",
+        ));
     }
 
-    for (key, value) in entries {
+    // Iterate the live map: an entry deleted before it is reached is not visited, one
+    // added during the iteration is.  `pos` is where the next unvisited entry should
+    // be; when the callback removed earlier entries it is found again by scanning.
+    let guard = interp.heap.create_guard();
+    let mut seen: crate::prelude::FxHashSet<JsMapKey> = Default::default();
+    let mut pos = 0usize;
+    loop {
+        let next = {
+            let map = map_obj.borrow();
+            let ExoticObject::Map { ref entries } = map.exotic else {
+                break;
+            };
+            let at_pos = entries
+                .get_index(pos)
+                .filter(|(k, _)| !seen.contains(*k))
+                .map(|(k, v)| (pos, k.clone(), v.clone()));
+            let before_ok = pos == 0
+                || entries
+                    .get_index(pos - 1)
+                    .is_some_and(|(k, _)| seen.contains(k));
+            match at_pos {
+                Some(found) if before_ok => Some(found),
+                _ => entries
+                    .iter()
+                    .enumerate()
+                    .find(|(_, (k, _))| !seen.contains(*k))
+                    .map(|(i, (k, v))| (i, k.clone(), v.clone())),
+            }
+        };
+        let Some((index, key, value)) = next else {
+            break;
+        };
+        pos = index + 1;
+        // key and value stay alive even if the callback deletes the entry
+        if let JsValue::Object(o) = &key.0 {
+            guard.guard(o.cheap_clone());
+        }
+        if let JsValue::Object(o) = &value {
+            guard.guard(o.cheap_clone());
+        }
+        seen.insert(key.clone());
         interp.call_function(
             callback.clone(),
             this_arg.clone(),
-            &[value, key, this.clone()],
+            &[value, key.0, this.clone()],
         )?;
     }
 
